@@ -50,6 +50,10 @@ type schedPoint struct {
 }
 
 type accessRec struct {
+	// obj keeps the instrumented object alive until the end of the execution: the shadow state is keyed by
+	// address, and an address reused by the allocator for another object would inherit a stale access record
+	// (a false, GC-timing-dependent race report)
+	obj        any
 	wTid, wClk int
 	wPC        uintptr
 	reads      [4]int // clock of the last read per thread (0 = none); at most 4 threads
@@ -250,7 +254,7 @@ func (s *Sched) accessHook(obj any, field string, write bool) {
 	key := accessKey{reflect.ValueOf(obj).Pointer(), field}
 	a := s.access[key]
 	if a == nil {
-		a = &accessRec{wTid: -1}
+		a = &accessRec{wTid: -1, obj: obj}
 		s.access[key] = a
 	}
 	pc := callerPC()
